@@ -156,7 +156,9 @@ def main():
         ],
         "checks": checks,
         "not_applicable": nal,
-        "notes": "All verdicts are bounded (see evidence.coverage.bounds). Exit 0 = held on everything explored; 1 + VIOLATION line = "
+        "notes": "Known findings (genuine defects recorded rather than repaired, and the list of repaired ones) are in /verif/known_findings.json; "
+                 "each open entry has a committed replay case under /verif/replay/known/. "
+                 "All verdicts are bounded (see evidence.coverage.bounds). Exit 0 = held on everything explored; 1 + VIOLATION line = "
                  "natively reproducing counterexample not listed in known_findings.json; 2 = inconclusive (timeout/OOM/unwinding/"
                  "non-reproducing counterexample), never reported as pass or violation.",
     }
